@@ -9,5 +9,5 @@ CONSTANTS
   Fmts = {"MOTO", "INTEL", "INTEL16", "INTEL32", "MOS", "TEK", "ATMEL", "C"}
   Devs = {}
   Full = FALSE
-INVARIANTS InvLinesValid InvVerdict InvDecodeEquiv InvEmit InvLineLen InvBank InvWholeUnits InvGroupReset
+INVARIANTS InvLinesValid InvVerdict InvDecodeEquiv InvEmit InvLineLen InvBank InvWholeUnits InvGroupReset InvArgOffsets
 CHECK_DEADLOCK FALSE
